@@ -8,7 +8,7 @@ import json, os, subprocess, sys, glob, shutil
 REPO = "/repo"
 CHECKS = "C01 C02 C03 C04 C05 C06 C08 C09 C10 C11 C12 C13 C15 C16 C17 C20".split()
 def sh(cmd, cwd=None): return subprocess.run(cmd, shell=True, capture_output=True, text=True, cwd=cwd)
-def clean(): return sh(f"git -C {REPO} status --porcelain --untracked-files=no").stdout.strip() == ""
+def clean(): return sh(f"git -C {REPO} status --porcelain").stdout.strip() == ""
 
 def ingest(wt, nid):
     patch = sh("git diff -- src", cwd=wt).stdout
@@ -35,7 +35,7 @@ def run(ids):
         if ids and nid not in ids: continue
         p = sh(f"git -C {REPO} apply {d}patch.diff")
         if p.returncode != 0:
-            print(nid, "cannot apply:", p.stderr[:200]); sh(f"git -C {REPO} checkout -- ."); continue
+            print(nid, "cannot apply:", p.stderr[:200]); sh(f"git -C {REPO} checkout -- . && git -C {REPO} clean -fdq -- src tests"); continue
         row = {}
         try:
             for cid in CHECKS:
@@ -43,7 +43,7 @@ def run(ids):
                 lines = [l for l in r.stdout.splitlines() if l.startswith("violation ")]
                 row[cid] = {"exit": r.returncode, "reports": [l[:400] for l in lines[:6]]}
         finally:
-            sh(f"git -C {REPO} checkout -- .")
+            sh(f"git -C {REPO} checkout -- . && git -C {REPO} clean -fdq -- src tests")
         json.dump(row, open(f"{d}result.json", "w"), indent=1)
         print(nid, " ".join(f"{c}:{row[c]['exit']}" for c in CHECKS), flush=True)
         for c in CHECKS:
